@@ -33,8 +33,8 @@ package polling
 //@ spec func isTableFor(pt gpbft.PowerEntries, instance mathint) bool
 
 // The store is never behind the poller: the poller only advances past instances that are in the store.
-//@ pred storeNotBehind(p *Poller) = p.Store.latestCertificate != nil ==>
-//@     p.Store.latestCertificate.GPBFTInstance + 1 >= p.NextInstance && p.Store.latestCertificate.GPBFTInstance < 18446744073709551615
+//@ pred storeNotBehind(p *Poller) = p.Store.powerTableFrequency > 0 && p.Store.powerTableFrequency <= 1048576 && (p.Store.latestCertificate != nil ==>
+//@     p.Store.latestCertificate.GPBFTInstance + 1 >= p.NextInstance && p.Store.latestCertificate.GPBFTInstance < 18446744073709551615)
 
 //@ func (*Poller).CatchUp
 //@   property C20
